@@ -1168,7 +1168,14 @@ C**********************************************************************
          Z(I1)=1D0/(DFLOAT(2*I1+1)*XX-Z(I1+1))
     5 CONTINUE
       Z0=1D0/(XX-Z(1))
-      Y0=Z0*DCOS(X)*XX
+C     j0 = Z0*cos(x)/x = sin(x)/x; the first form is 0/0 when cos(x)=0
+C     (x an odd multiple of pi/2), the second loses all accuracy in
+C     Y1=Y0*Z(1) when sin(x)=0: take the well-conditioned one
+      IF (DABS(DCOS(X)).GE.DABS(DSIN(X))) THEN
+         Y0=Z0*DCOS(X)*XX
+      ELSE
+         Y0=DSIN(X)*XX
+      ENDIF
       Y1=Y0*Z(1)
       U(1)=Y0-Y1*XX
       Y(1)=Y1
@@ -1242,8 +1249,17 @@ C**********************************************************************
       CZ0I=-AI*ARI
       CR=DCOS(XR)*DCOSH(XI)
       CI=-DSIN(XR)*DSINH(XI)
-      AR=CZ0R*CR-CZ0I*CI
-      AI=CZ0I*CR+CZ0R*CI
+      SR=DSIN(XR)*DCOSH(XI)
+      SI=DCOS(XR)*DSINH(XI)
+C     j0(z) = CZ0*cos(z)/z = sin(z)/z: as in RJB, use the form that is
+C     well conditioned (cos(z)=0 for a real z = odd multiple of pi/2)
+      IF (CR*CR+CI*CI.GE.SR*SR+SI*SI) THEN
+         AR=CZ0R*CR-CZ0I*CI
+         AI=CZ0I*CR+CZ0R*CI
+      ELSE
+         AR=SR
+         AI=SI
+      ENDIF
       CY0R=AR*CXXR-AI*CXXI
       CY0I=AI*CXXR+AR*CXXI
       CY1R=CY0R*CZR(1)-CY0I*CZI(1)
